@@ -889,8 +889,23 @@ def shrink_hist(ck, case, rounds=12):
             if not r or not r["V_hist"]:
                 break
             cur = min((c for c in ran if c["id"] in set(r["V_hist"])), key=lambda c: len(json.dumps(c["steps"])))
+        if cur is not case:
+            # the shrunk history must violate on its own (a change that leaves inserts running behind the answer lets them
+            # arrive during the next history of a batch: such a candidate is not a replay); otherwise keep the generated one
+            inp = os.path.join(ck.work, "shrink_in.jsonl")
+            outp = os.path.join(ck.work, "shrink_out.jsonl")
+            with open(inp, "w") as f:
+                f.write(json.dumps({"id": 0, "class": "shrink", "steps": cur["steps"]}) + "\n")
+            rc, _ = ck.go_run("seriesid", ["--mode", "hist", "--cases", inp, "--out", outp])
+            ran = [json.loads(l) for l in open(outp)] if rc == 0 else []
+            r, _ = eval_hcases(ck, "C04_shrink_final", [c for c in ran if not c.get("panic")]) if ran else (None, "")
+            if not r or not r["V_hist"]:
+                ck.log("the shrunk history does not violate when run alone: the generated history is reported")
+                return case
+            cur = ran[0]
     except Exception as e:  # noqa: BLE001 - shrinking is best effort, the unshrunk case is a valid replay
         ck.log("shrinking stopped: %r" % e)
+        return case
     return cur
 
 
@@ -1008,7 +1023,19 @@ def run_hist(ck):
     ck.obligation("spec: every acknowledged sample has a successfully inserted series row of its day and type, in every history (insert failures per chunk, retries, malformed bodies, overlapping pushes, requests above 1 MiB sent in several chunks, resets)",
                   not res["V_hist"], "case ids: %s" % res["V_hist"][:10])
     if res["V_hist"]:
+        # prefer a history that violates when it is run ALONE (a change that leaves inserts running behind the answer makes them
+        # arrive during the next history of the batch, which then looks violated without being the cause)
         c0 = min((byid[i] for i in res["V_hist"]), key=size)
+        for cand in sorted((byid[i] for i in res["V_hist"]), key=size)[:6]:
+            inp, outp1 = os.path.join(ck.work, "alone_in.jsonl"), os.path.join(ck.work, "alone_out.jsonl")
+            with open(inp, "w") as f:
+                f.write(json.dumps({"id": cand["id"], "class": cand["class"], "steps": cand["steps"]}) + "\n")
+            rc1, _ = ck.go_run("seriesid", ["--mode", "hist", "--cases", inp, "--out", outp1])
+            ran = [json.loads(l) for l in open(outp1)] if rc1 == 0 else []
+            r1, _ = eval_hcases(ck, "C04_alone_%d" % cand["id"], [x for x in ran if not x.get("panic")]) if ran else (None, "")
+            if r1 and r1["V_hist"]:
+                c0 = ran[0]
+                break
         c = shrink_hist(ck, c0)
         ck.violation({"property": "C04", "part": "hist", "kind": "acknowledged sample without series row of its day and type",
                       "case": c, "readable": show_hist(c), "explanation": "hv (model/SeriesIndex.v) on the observed inserts",
